@@ -20,6 +20,11 @@ pub struct Plan {
     pub text_order: Option<u64>,
     pub write_io: IoPlan,
     pub read_io: IoPlan,
+    /// Some((file kind, directory style)): the written text is also stored on the simulated disk - as a regular file,
+    /// a symbolic link or a pipe (SimDir::create_kind), in a directory named / reached per SimDir::styled_dir - and
+    /// read through the path-taking `tiny_v2::read_file`
+    #[serde(default)]
+    pub file_route: Option<(u8, u8)>,
 }
 
 macro_rules! with_n {
@@ -48,6 +53,10 @@ fn write_real<const N: usize>(m: &MapSet, ord: u64, w: &mut impl std::io::Write)
 }
 fn read_real<const N: usize>(r: impl std::io::Read) -> anyhow::Result<MapSet> {
     let q: quill::tree::mappings::Mappings<N, crate::bridge::Ns> = quill::tiny_v2::read(r)?;
+    Ok(from_quill(&q).expect("quill value projects"))
+}
+fn read_file_real<const N: usize>(path: &std::path::Path) -> anyhow::Result<MapSet> {
+    let q: quill::tree::mappings::Mappings<N, crate::bridge::Ns> = quill::tiny_v2::read_file(path)?;
     Ok(from_quill(&q).expect("quill value projects"))
 }
 fn rewrite_real<const N: usize>(text: &[u8]) -> anyhow::Result<Vec<u8>> {
@@ -100,7 +109,14 @@ impl Engine for C03 {
             text_order: if w.chance(50) { Some(w.next() | 1) } else { None },
             write_io: IoPlan::plain(),
             read_io: IoPlan::plain(),
+            file_route: None,
         };
+        {
+            let mut fr = rng.split("file-route");
+            if fr.chance(8) {
+                p.file_route = Some((fr.below(3) as u8, if fr.chance(50) { 0 } else { 1 + fr.below(7) as u8 }));
+            }
+        }
         // swarm: which sides get legal noise, which get faults
         let mode = s.below(10);
         if mode >= 2 {
@@ -215,6 +231,32 @@ impl Engine for C03 {
                     Ok(Err(_)) => {}
                     Err(pm) => out.push(Violation::new("T0", "panic", format!("read-duplicate:{}", panic_path(&pm)), pm)),
                 }
+            }
+        }
+        // the same text on the simulated disk, read through the path-taking entry point: what kind of directory entry
+        // the file is (regular, symbolic link, pipe whose metadata reports size 0) and how its directory is named or
+        // reached change nothing (missed seeded change C03-12: a buffer sized by metadata().len())
+        if let Some((kind, style)) = p.file_route {
+            st.tier("T1");
+            st.probe("read_file_route");
+            st.nontrivial = true;
+            let mut dir = crate::simdir::SimDir::new("c03");
+            let (real, given) = dir.styled_dir("maps", style, ".tiny");
+            dir.create_kind(&format!("{real}/m.tiny"), &t0, kind);
+            if kind % 3 == 2 {
+                st.probe("read_file_route.pipe");
+            }
+            st.events += 6;
+            st.sched.u64(0x7069_7065 ^ ((kind as u64) << 8) ^ style as u64);
+            let path = given.join("m.tiny");
+            match no_panic(|| with_n!(n, read_file_real(&path))) {
+                Ok(Ok(r)) => {
+                    if let Some((path, d)) = p.m.diff_path(&r) {
+                        out.push(Violation::new("T1", "schedule-dependence", format!("read_file.{path}"), d));
+                    }
+                }
+                Ok(Err(e)) => out.push(Violation::new("T1", "schedule-dependence", "read_file.result", format!("file kind {kind}, directory style {style}: {e:#}"))),
+                Err(pm) => out.push(Violation::new("T1", "panic", format!("read_file:{}", panic_path(&pm)), pm)),
             }
         }
         // fixed point
@@ -385,6 +427,21 @@ impl Engine for C03 {
             let mut q = p.clone();
             q.read_io = io;
             c.push(q);
+        }
+        if let Some((k, st)) = p.file_route {
+            let mut q = p.clone();
+            q.file_route = None;
+            c.push(q);
+            if st != 0 {
+                let mut q = p.clone();
+                q.file_route = Some((k, 0));
+                c.push(q);
+            }
+            if k != 0 {
+                let mut q = p.clone();
+                q.file_route = Some((0, st));
+                c.push(q);
+            }
         }
         if p.text_order.is_some() {
             let mut q = p.clone();
